@@ -112,7 +112,7 @@ class World:
         if nullable and h % 8 == 0:
             return None  # ordinary null in a nullable position
         if t[0] == "L":
-            n = (h >> 3) % 4
+            n = (h >> 3) % 5
             return [
                 self.gen(t[1], (idseed, i), path + (i,)) for i in range(n)
             ]
